@@ -3,11 +3,10 @@
 From Coq Require Import Lia.
 From V.Model Require Import Base Templates Conv ConvSpec.
 From V.Gen Require Import GenSrc.
-From V.Proofs Require Import TemplatesProofs SrcObligationsGen ClassSound ConvSound.
+From V.Proofs Require Import TemplatesProofs SrcObligationsGen ClassSound ConvSound ConvCfg.
 
-(* the configuration of a converter, with the template flags translator T1 read off the current source *)
-Definition mk_cfg (gen dv tup forbid : bool) : ccfg :=
-  {| c_gen := gen; c_dv := dv; c_tuple := tup; c_forbid := forbid; c_recheck := src_recheck; c_kw_last := src_kw_last |}.
+(* [mk_cfg gen dv tuple forbid] (Proofs/ConvCfg.v): the configuration of a converter, with the template flags
+   translator T1 read off the current source *)
 
 (* 1. Soundness.  For EVERY environment of classes and enums, every type expression (any nesting of
       Any, primitives, enums, literals, lists / sequences, homogeneous and heterogeneous tuples, sets,
@@ -29,7 +28,7 @@ Theorem C02_structure_sound :
       structure E (mk_cfg gen dv false forbid) n t o = Ok v -> conforms E v t.
 Proof.
   intros E gen dv forbid H1 H2 H3.
-  apply structure_sound; [assumption | assumption | assumption | reflexivity | exact src_detailed_rechecks_errors | exact src_fast_kw_last].
+  apply structure_sound; [assumption | assumption | assumption | reflexivity | apply mk_cfg_recheck | apply mk_cfg_kw_last].
 Qed.
 Print Assumptions C02_structure_sound.
 
